@@ -356,6 +356,17 @@ class Run:
         self.violations.append((path, note))
         return path
 
+    def proof_failed(self, extra=None):
+        """the proof side (lint / Coq build / property file) does not check: if the correspondence run above has produced a
+        concrete failing input the violation is already reported with it; otherwise report it naming what no longer checks"""
+        cf = dict(getattr(self, "coq_failure", {}), input=None)
+        if extra:
+            cf.update(extra)
+        if self.violations:
+            self.violation(dict(cf, note="a failing input was found by the run: see the other replay files"), None)
+        else:
+            self.violation(cf, None, note="no-failing-input-found")
+
     def known_hit(self, sig, example):
         e = self.known_hits.setdefault(sig, [0, example])
         e[0] += 1
@@ -501,7 +512,7 @@ def check_C19(run, replay=None):
         ],
     })
     if not proof_ok:
-        run.violation(dict(getattr(run, "coq_failure", {}), input=None), None, note="no-failing-input-found")
+        run.proof_failed()
     return run.finish()
 
 
@@ -531,7 +542,7 @@ def check_C13(run, replay=None):
         ],
     })
     if not proof_ok:
-        run.violation(dict(getattr(run, "coq_failure", {}), input=None), None, note="no-failing-input-found")
+        run.proof_failed()
     return run.finish()
 
 
@@ -583,8 +594,10 @@ def check_C12(run, replay=None):
             cf["map_ranges"] = open(os.path.join(COQ, "theories", "Gen", "MapSites.txt")).read()[-6000:]
         except OSError:
             pass
-        if not found:
+        if not found and not run.violations:
             run.violation(dict(cf, input=None), None, note="no-failing-input-found")
+        elif not found:
+            run.violation(dict(cf, input=None, note="differing outputs were found by the run: see the other replay files"), None)
     return run.finish()
 
 
@@ -656,7 +669,7 @@ def check_C15(run, replay=None):
     run.log("cases: %d accepted by the loader; crashes %d; correspondence mismatches %d; errors located/unlocated %d/%d; cli runs %d" % (
         n_eval, len(bad), len(corr), located, unlocated, cli_n))
     if not proof_ok:
-        run.violation(dict(getattr(run, "coq_failure", {}), input=None), None, note="no-failing-input-found")
+        run.proof_failed()
     return run.finish()
 
 
@@ -812,7 +825,7 @@ def check_router_family(run, replay, rule, trusted, signature=None, extra_cov=No
     if extra_cov:
         run.coverage.update(extra_cov)
     if not proof_ok:
-        run.violation(dict(getattr(run, "coq_failure", {}), input=None), None, note="no-failing-input-found")
+        run.proof_failed()
     return run.finish()
 
 
@@ -874,6 +887,20 @@ def err_mentions(impl_err, key_hex):
     return key != "" and key in msg
 
 
+def d47_only(iobj, mobj, parent_is_list=False):
+    """True when the implementation's JSON differs from the model's only by null in place of [] for an array that is itself an
+    ITEM of an array (D47: the inner slices of an array of arrays are encoded by encoding/json's default)"""
+    if iobj is None and mobj == [] and parent_is_list:
+        return True
+    if type(iobj) != type(mobj):
+        return False
+    if isinstance(iobj, list):
+        return len(iobj) == len(mobj) and all(d47_only(a, b, True) for a, b in zip(iobj, mobj))
+    if isinstance(iobj, dict):
+        return iobj.keys() == mobj.keys() and all(d47_only(iobj[k], mobj[k], False) for k in iobj)
+    return iobj == mobj
+
+
 def check_json_family(run, prop, replay=None):
     proof_ok = run.proof_side()
     cases, impl, model, meta = run.run_vh(["-cases", replay] if replay else None)
@@ -886,6 +913,25 @@ def check_json_family(run, prop, replay=None):
     corr, propm = [], []
     distinct = set()
     kinds = {}
+    # C07: where the implementation's encoding differs from the model's, the implementation's OWN output is judged by the
+    # extracted validator (a second run of the model on `U <pkg> <type> <impl json>` lines)
+    impl_valid = {}
+    if prop == "C07":
+        extra = []
+        for i, (c, im, mo) in enumerate(zip(cases, impl, model)):
+            if c[:2] == "E " and not im.startswith("SKIP"):
+                iv, mv = parse_kv(im).get("impl", "?"), parse_kv(mo).get("model", "?")
+                if re.fullmatch(r"[0-9a-f]+", iv) and iv != mv:
+                    f = c.split(" ")
+                    extra.append((i, "U %s %s %s" % (f[1], f[2], iv)))
+        if extra:
+            lines = [c for c in cases if c[:2] in ("J ", "O ")] + [l for _, l in extra]
+            rc, mout = sh([os.path.join(BUILD, "modelrun")], input="\n".join(lines) + "\n", timeout=600)
+            outs = mout.split("\n")
+            base = len(lines) - len(extra)
+            for k, (i, _) in enumerate(extra):
+                o = outs[base + k] if base + k < len(outs) else ""
+                impl_valid[i] = parse_kv(o).get("valid")
     for i, (c, im, mo) in enumerate(zip(cases, impl, model)):
         kind = c[:1]
         if kind not in ("E", "U") or im.startswith("SKIP"):
@@ -922,6 +968,8 @@ def check_json_family(run, prop, replay=None):
                 elif prop == "C07" and not (same and mkv.get("valid") == "1"):
                     if ij == mj and mkv.get("valid") != "1":
                         bad = "encoded JSON does not validate against the schema"
+                    elif ij != mj and impl_valid.get(i) == "0":
+                        bad = "encoded JSON does not validate against the schema (the implementation's own output, judged by the Coq validator)"
             if bad:
                 propm.append((i, c, im, mo, ctx, bad))
         else:
@@ -987,12 +1035,34 @@ def check_json_family(run, prop, replay=None):
     rest = []
     for t in propm:
         sg = json_sig(t[4])
+        if not sg and prop == "C07" and t[1].startswith("E "):
+            try:
+                io = json.loads(bytes.fromhex(parse_kv(t[2]).get("impl", "")).decode("utf8"))
+                mo_ = json.loads(bytes.fromhex(parse_kv(t[3]).get("model", "")).decode("utf8"))
+                if io != mo_ and d47_only(io, mo_):
+                    sg = "nil_inner_array_encodes_null"
+            except Exception:
+                pass
         if sg and any(k["signature"] == sg for k in run.known):
             run.known_hit(sg, t[1][:160])
         else:
             rest.append(t)
     propm = rest
-    corr = [t for t in corr if not (json_sig(t[4]) and any(k["signature"] == json_sig(t[4]) for k in run.known))]
+    def corr_known(t):
+        if json_sig(t[4]) and any(k["signature"] == json_sig(t[4]) for k in run.known):
+            return True
+        if t[1].startswith("E ") and any(k["signature"] == "nil_inner_array_encodes_null" for k in run.known):
+            try:
+                io = json.loads(bytes.fromhex(parse_kv(t[2]).get("impl", "")).decode("utf8"))
+                mo_ = json.loads(bytes.fromhex(parse_kv(t[3]).get("model", "")).decode("utf8"))
+                if io != mo_ and d47_only(io, mo_):
+                    if prop != "C07":
+                        run.known_hit("nil_inner_array_encodes_null", t[1][:160])
+                    return True
+            except Exception:
+                return False
+        return False
+    corr = [t for t in corr if not corr_known(t)]
     for (i, c, im, mo, ctx, why) in propm[:3]:
         run.violation({"property": prop, "case": c, "context": ctx, "observed_impl": im[:2000], "model": mo[:2000], "broken": why}, c)
     if corr and not propm:
@@ -1023,7 +1093,7 @@ def check_json_family(run, prop, replay=None):
     })
     run.log("cases: %d evaluated; correspondence mismatches %d; property mismatches %d" % (n_eval, len(corr), len(propm)))
     if not proof_ok:
-        run.violation(dict(getattr(run, "coq_failure", {}), input=None), None, note="no-failing-input-found")
+        run.proof_failed()
     return run.finish()
 
 
@@ -1252,7 +1322,7 @@ def check_C09(run, replay=None):
             "kin-openapi openapi3filter as an independent validator of the wire request (support for the tie, not part of the theorem)"],
     })
     if not proof_ok:
-        run.violation(dict(getattr(run, "coq_failure", {}), input=None), None, note="no-failing-input-found")
+        run.proof_failed()
     return run.finish()
 
 
@@ -1367,7 +1437,7 @@ def check_C10(run, replay=None):
             "enc and dec (driver glue; canonical JSON comparison)"],
     })
     if not proof_ok:
-        run.violation(dict(getattr(run, "coq_failure", {}), input=None), None, note="no-failing-input-found")
+        run.proof_failed()
     return run.finish()
 
 
@@ -1434,7 +1504,7 @@ def check_C01(run, replay=None):
             "the naming model covers ASCII names (unicode.IsLetter/IsUpper/IsDigit, strings.Title on bytes < 128); Title()/x-text casing is not modelled"],
     })
     if not proof_ok:
-        run.violation(dict(getattr(run, "coq_failure", {}), input=None), None, note="no-failing-input-found")
+        run.proof_failed()
     return run.finish()
 
 
@@ -1642,7 +1712,7 @@ def check_C18(run, replay=None):
             "the generator's resolution of references itself (specification.Ref) is exercised by this run, not modelled"],
     })
     if not proof_ok:
-        run.violation(dict(getattr(run, "coq_failure", {}), input=None), None, note="no-failing-input-found")
+        run.proof_failed()
     return run.finish()
 
 
